@@ -5,7 +5,7 @@ cd "$(dirname "$0")/.."
 TIER=${1:-quick}
 lane() {
   p=$1
-  for d in seeded/$p seeded/${p}b seeded/${p}c; do
+  for d in seeded/$p seeded/${p}[a-z]; do
     [ -d $d ] || continue
     out=$(TIER=$TIER TAIL=400 tools/seeded.sh check $d 2>&1)
     rc=$(echo "$out" | grep -oE "rc=[0-9]+" | tail -1 | cut -d= -f2)
